@@ -234,6 +234,34 @@ def run(chk, tier):
                     item, model = debug_implicit_item(named, fields, list(fa))
                     reqs.append({"derive": "Debug", "item": item})
                     metas.append((item, model, "Debug/fields"))
+    # `.*` / `n$` parameters: the implicit counter decides which argument each later placeholder denotes
+    star_family = [
+        # (literal, args, [(field index, trait)] expected references)
+        ("{%(n0)s:.*} {}", "2usize, %(n1)s", [(0, "Display"), (1, "Display")]),
+        ("{:.*} {}", "2usize, %(n0)s, %(n1)s", [(0, "Display"), (1, "Display")]),
+        ("{1:.*} {:?}", "2usize, %(n0)s, %(n1)s", [(0, "Display"), (0, "Debug")]),
+        ("{} {:.*}", "%(n0)s, 2usize, %(n1)s", [(0, "Display"), (1, "Display")]),
+        ("{a:.*}|{:?}", "3usize, %(n1)s, a = %(n0)s", [(0, "Display"), (1, "Debug")]),
+        ("{:1$} {2:x}", "%(n0)s, 4usize, %(n1)s", [(0, "Display"), (1, "LowerHex")]),   # `1$` does not advance the counter
+        ("{:.1$} {2:?} {}", "%(n0)s, 4usize, %(n1)s", [(0, "Display"), (1, "Debug")]),
+        ("{0:w$} {:?}", "%(n1)s, w = 4usize", [(1, "Display"), (1, "Debug")]),
+    ]
+    for derive in ("Display", "Debug"):
+        for named in (False, True):
+            for fs in itertools.product([f for f in forms if f not in ("dyn",)], repeat=2):
+                for lit, args, refs in star_family:
+                    fields = [Field(i, fs[i], "none", "Display", named) for i in range(2)]
+                    names = {"n0": fields[0].name, "n1": fields[1].name}
+                    model = {nows("%s : derive_more :: core :: fmt :: %s" % (fields[j].ty, tr)) for j, tr in refs if fields[j].generic}
+                    gens = [f.param + ": Tr" if f.form in ("qassoc", "assoc") else f.param for f in fields if f.generic]
+                    if any("'a" in f.ty for f in fields):
+                        gens = ["'a"] + gens
+                    gdecl = "<%s>" % ", ".join(gens) if gens else ""
+                    fdecl = ", ".join(("%s: %s" % (f.name, f.ty)) if named else f.ty for f in fields)
+                    body = ("{ %s }" % fdecl) if named else ("(%s)" % fdecl)
+                    item = '#[%s("%s", %s)] struct S%s %s%s' % (ATTR[derive], lit % names, args % names, gdecl, body, "" if named else ";")
+                    reqs.append({"derive": derive, "item": item})
+                    metas.append((item, model, "%s/star-and-dollar-parameters" % derive))
     res = svc(reqs)
     for (item, model, kind), r in zip(metas, res):
         chk.count(states=1, transitions=1)
